@@ -133,6 +133,10 @@ func (m *c01mon) After(g *gw.GW, ev string, sn []gw.SNOut, mq []gw.MQOut, setup 
 			return vs
 		}
 	}
+	if len(pubs) == 0 && (pub.QoS == 1 || pub.QoS == 2) && pub.MsgID == 0 {
+		// not translatable into a valid MQTT PUBLISH (packet id 0): the gateway may refuse it (C24)
+		return vs
+	}
 	if len(pubs) != 1 {
 		vs = append(vs, explore.Violation{Sig: fmt.Sprintf("not-exactly-one-mqtt-publish:n=%d:tit=%d", len(pubs), pub.TIT),
 			Detail: fmt.Sprintf("%s (topic %q): %d MQTT PUBLISH packets forwarded", desc, want, len(pubs))})
